@@ -56,6 +56,22 @@ def run(ctx):
     json.dump(scs, open(sp, "w"))
     ctx.log("TLC emitted %d requests" % len(scs))
 
+    # sequence leg (WalSeq.tla): two accepted requests of two tenants through ONE WAL / replication stream
+    sq = ctx.tlc("writeauth", "WalSeq", "Seq.cfg", timeout=600, workers=2)
+    if not sq.traces:
+        raise InfraError("WalSeq generator emitted nothing")
+    negs = ctx.tlc("writeauth", "WalSeq", "Seq_merge.cfg", allow_violation=True, timeout=600, workers=1)
+    if not negs.violated:
+        raise InfraError("negative control Seq_merge.cfg was not rejected by TLC")
+    nega = ctx.tlc("writeauth", "WalSeq", "Seq_alias.cfg", allow_violation=True, timeout=600, workers=1)
+    if not nega.violated:
+        raise InfraError("negative control Seq_alias.cfg was not rejected by TLC")
+    ctx.note("tlc_sequence_negative_control_alias", {"cfg": "Seq_alias.cfg", "violated": nega.violated})
+    ctx.note("tlc_sequence_model", {"cfg": "Seq.cfg", "distinct": sq.distinct, "sequences": len(sq.traces),
+                                    "negative_control": {"cfg": "Seq_merge.cfg", "violated": negs.violated}})
+    qp = ctx.path("sequences.json")
+    json.dump(sq.traces, open(qp, "w"))
+
     ov = ctx.make_overlay(["writeauth"])
     binp = ctx.go_build("writeauth", overlay=ov)
     arc = ctx.go_build_arc(overlay=ov)
@@ -63,7 +79,7 @@ def run(ctx):
     import os
     os.makedirs(tmp, exist_ok=True)
     rp = ctx.path("result.json")
-    ctx.run([binp, "-scenarios", sp, "-out", rp, "-tmp", tmp, "-arc", arc], timeout=3000)
+    ctx.run([binp, "-scenarios", sp, "-seq", qp, "-out", rp, "-tmp", tmp, "-arc", arc], timeout=3000)
     r = json.load(open(rp))
     if r.get("infra"):
         raise InfraError("writeauth driver: " + r["infra"])
@@ -76,6 +92,14 @@ def run(ctx):
     for leg in ("live", "replica", "replay"):
         if not r["files_per_leg"].get(leg):
             raise InfraError("leg %s stored nothing: the binding is vacuous" % leg)
+    if r.get("sequences", 0) != len(sq.traces):
+        raise InfraError("driver replayed %d of %d sequences" % (r.get("sequences", 0), len(sq.traces)))
+    for leg in ("live", "replica", "replay"):
+        if not (r.get("sequence_rows_per_leg") or {}).get(leg):
+            raise InfraError("sequence leg %s stored no rows: the binding is vacuous" % leg)
+    ctx.note("sequences_replayed", r["sequences"])
+    ctx.note("sequence_rows_per_leg", r["sequence_rows_per_leg"])
+    ctx.count(evaluations=r["sequences"] * 3, nontrivial_keys=["seq|" + json.dumps(t["reqs"], sort_keys=True) for t in sq.traces])
     ctx.count(evaluations=r["requests"] * 3,
               nontrivial_keys=["%s|%s|%s|%s|%s" % (s["form"] + "/" + s["dup"], s["hdr"], s["q"], s["meas"],
                                                   ",".join("%s:%s:%s" % (d["name"], d["pos"], d["vt"]) for d in s["decoys"]))
